@@ -10,7 +10,9 @@ def files():
                                   G.F("nums", 3, G.T.TYPE_INT32, label=G.REPEATED), G.F("inner", 4, G.T.TYPE_MESSAGE, type_name=".acme.dep.v1.Inner")])
     # a request declared in resource.proto whose flattened *scalar* field is called `resource`: the parameter name equals the module name
     rs = G.new_file("acme/lab/v1/resource.proto", "acme.lab.v1")
-    G.add_message(rs, "GetResourceRequest", [G.F("resource", 1, G.T.TYPE_STRING), G.F("view", 2, G.T.TYPE_STRING)])
+    G.add_message(rs, "Hint", [G.F("level", 1, G.T.TYPE_INT32)])
+    G.add_message(rs, "GetResourceRequest", [G.F("resource", 1, G.T.TYPE_STRING), G.F("view", 2, G.T.TYPE_STRING),
+                                             G.F("hint", 3, G.T.TYPE_MESSAGE, type_name=".acme.lab.v1.Hint")])
     fd = G.new_file("acme/lab/v1/lab.proto", "acme.lab.v1", deps=G.STD_DEPS + ["acme/dep/v1/dep.proto", "acme/lab/v1/resource.proto"])
     G.add_message(fd, "Spec", [G.F("size", 1, G.T.TYPE_INT32), G.F("class", 2, G.T.TYPE_STRING)])
     req = G.add_message(fd, "Req", [G.F("parent", 1, G.T.TYPE_STRING), G.F("count", 2, G.T.TYPE_INT32, proto3_optional=True, oneof_index=0),
@@ -30,7 +32,7 @@ def files():
                  signatures=["resource,permissions"])
     G.add_method(svc, "Wait", ".google.longrunning.WaitOperationRequest", ".acme.lab.v1.Resp", http=("post", "/v1/{name=p/*}:w"), body="*",
                  signatures=["name,timeout.seconds"])
-    G.add_method(svc, "GetResource", ".acme.lab.v1.GetResourceRequest", ".acme.lab.v1.Resp", http=("get", "/v1/{resource=r/*}"), signatures=["resource,view"])
+    G.add_method(svc, "GetResource", ".acme.lab.v1.GetResourceRequest", ".acme.lab.v1.Resp", http=("get", "/v1/{resource=r/*}"), signatures=["resource,view,hint"])
     fd.dependency.append("google/iam/v1/iam_policy.proto")
     return [dep, rs, fd]
 
@@ -150,6 +152,8 @@ def scenarios():
     pb2 = [(dict(resource="p/1", permissions=["x", "y"]), lambda R, L: R(resource="p/1", permissions=["x", "y"])),
            (dict(resource="p/1"), lambda R, L: R(resource="p/1")), (dict(permissions=[]), lambda R, L: R()), ({}, lambda R, L: R())]
     shadow = [(dict(resource="r/1", view="FULL"), lambda R, L: R(resource="r/1", view="FULL")), (dict(resource="r/1"), lambda R, L: R(resource="r/1")),
+              # a message-typed flattened field of a request that is declared in another file of the same package
+              (dict(resource="r/1", hint={"level": 3}), lambda R, L: R(resource="r/1", hint=L.Hint(level=3))),
               ({}, lambda R, L: R())]
     fails = _drive_groups(drop_method(files(), ["Dep", "Wait"]),
                           [("update", ("acme.lab_v1", "Req"), main), ("perm", ("google.iam.v1.iam_policy_pb2", "TestIamPermissionsRequest"), pb2),
